@@ -22,12 +22,17 @@ static int C_EVAL, C_DIST, C_EXEC, C_POINTS, W_DELIVERED, W_DROPPED, W_DOTDOT, W
 // result-based witnesses of the extensions (each must be non-zero in a run that enumerates its family)
 static int W_NUL_PATH, W_NUL_DOTDOT, W_BADLINE_DROPPED, W_BADLINE_LENIENT, W_HEXCHUNK, W_LONG_DELIVERED, W_LONG_DROPPED, W_EMPTYVAL, W_EXACTHDR, W_TABFOLD, W_R100, W_R417, W_F200, W_F206, W_F416, W_F404,
 	W_BLOCKX, W_STALL, W_STALL_TIMEOUT, W_STALL_DELIVERED, W_STALL_PARTIAL, W_STALL_GAVEUP, W_OUTSIDE_TRIED, W_FOLD3;
+// header-name spelling family (each counted on a stream that was delivered and compared equal)
+static int W_HN_STREAMS, W_HN_NONCANON_PLAIN, W_HN_NONCANON_FOLD, W_HN_NONCANON_EMPTY, W_HN_FOLD_AFTER_EMPTY, W_HN_BLANK_FOLD, W_HN_REPEATED, W_HN_REPEATED_2SPELL, W_HN_BEFORE_HOST, W_HN_FRAMING, W_HN_FRAMING_FOLD, W_LOOKUPS, W_LOOKUPS_ABSENT;
 
 struct Rec {
 	std::string method, path, query, proto, body, lookupFail;
 	std::map<std::string, std::string> headers, params; // header names in lower case (the statement asks for case-insensitive lookup, not for a spelling)
-	std::map<std::string, std::string> alt;               // expected side only: a second acceptable value (a folded header joined with or without a space)
+	std::map<std::string, std::vector<std::string> > alt; // expected side only: further acceptable values (a folded header joined with or without a space; a repeated header: last, first or the list)
+	std::map<std::string, std::pair<bool, std::string> > look; // delivered side: spelling looked up -> (hasHeader, header) for every probe spelling of the case
 };
+// the spellings under which the handler looks headers up (set per case: every expected name in all its letter-case patterns, and names never sent)
+static std::vector<std::string> g_probes;
 static std::string lower(std::string s) { for (size_t i = 0; i < s.size(); i++) s[i] = (char)tolower((unsigned char)s[i]); return s; }
 struct Srv : public HttpServer {
 	std::vector<Rec> got;
@@ -41,7 +46,9 @@ struct Srv : public HttpServer {
 		const Dic<>& qp = q.query();
 		foreach2 (String & k2, const String& v2, qp) x.params[vfx::S(k2)] = vfx::S(v2);
 		// case-insensitive lookup must agree with the stored value
-		foreach2 (String & k3, const String& v3, q.headers()) { if (q.header(k3.toLowerCase()) != v3 || q.header(k3.toUpperCase()) != v3 || !q.hasHeader(k3.toLowerCase())) x.lookupFail = vfx::S(k3); }
+		foreach2 (String & k3, const String& v3, q.headers()) { if (q.header(k3.toLowerCase()) != v3 || q.header(k3.toUpperCase()) != v3 || !q.hasHeader(k3.toLowerCase()))
+			x.lookupFail = vfx::S(k3) + ": headers() lists it with the value '" + vfx::S(v3) + "', header('" + vfx::S(k3.toLowerCase()) + "') = '" + vfx::S(q.header(k3.toLowerCase())) + "', header('" + vfx::S(k3.toUpperCase()) + "') = '" + vfx::S(q.header(k3.toUpperCase())) + "', hasHeader('" + vfx::S(k3.toLowerCase()) + (q.hasHeader(k3.toLowerCase()) ? "') true" : "') false"); }
+		for (size_t i = 0; i < g_probes.size(); i++) { String n = vfx::A(g_probes[i]); x.look[g_probes[i]] = std::make_pair(q.hasHeader(n), vfx::S(q.header(n))); }
 		got.push_back(x);
 		if (_webroot.ok()) HttpServer::serve(q, r); else r.put("ok");
 	}
@@ -159,7 +166,7 @@ static void commonChecks(const Outcome& o, const std::string& kase, const std::s
 
 // ---- part A: request targets
 static void targetCase(const std::string& target, const std::string& kase) {
-	g_case = kase; vf::cur(kase); vf::add(C_EVAL); vf::add(C_DIST);
+	g_case = kase; vf::cur(kase); vf::add(C_EVAL); vf::add(C_DIST); g_probes.clear();
 	std::vector<std::string> ch(1, "GET " + target + " HTTP/1.1\r\nHost: x\r\n\r\n");
 	Outcome o = runStream(ch, 0, false);
 	// reference: fragment from the first '#', query from the first '?' before it
@@ -194,8 +201,11 @@ struct Stream {
 	bool longline;          // a line at the 16000-byte cap: cut / split only at `positions`, larger step budget
 	bool badline;           // malformed request line
 	bool outside;           // asks the file server for a file outside the root
+	bool names;             // header-name spelling family: whole, byte-wise, read(1), every 2-split (every cut in the thorough tier); no stall, no small block
+	int hnForm, hnFraming;  // names family: header form (-1: none) / framing-header form (-1: none), for the witnesses
+	bool hnNoncanon, hnTwoSpellings, hnBeforeHost;
 	std::vector<int> positions;
-	Stream() : kind(K_SAFETY), fileRoot(false), thoroughOnly(false), core(false), longline(false), badline(false), outside(false) {}
+	Stream() : kind(K_SAFETY), fileRoot(false), thoroughOnly(false), core(false), longline(false), badline(false), outside(false), names(false), hnForm(-1), hnFraming(-1), hnNoncanon(false), hnTwoSpellings(false), hnBeforeHost(false) {}
 };
 static Rec mk(const std::string& m, const std::string& p, const std::string& q, const std::string& body) { Rec r; r.method = m; r.path = p; r.query = q; r.body = body; return r; }
 struct Line { const char* text; const char* method; const char* path; const char* query; };
@@ -228,7 +238,7 @@ static Stream product(int l, int h, int b) {
 	s.kind = HDRS[h].ok && BODIES[b].ok ? K_EXACT : K_SAFETY;
 	if (s.kind == K_EXACT) {
 		Rec r = mk(LINES[l].method, LINES[l].path, LINES[l].query, BODIES[b].body); r.headers["host"] = "h";
-		if (HDRS[h].name) { r.headers[HDRS[h].name] = HDRS[h].value; if (HDRS[h].alt) r.alt[HDRS[h].name] = HDRS[h].alt; }
+		if (HDRS[h].name) { r.headers[HDRS[h].name] = HDRS[h].value; if (HDRS[h].alt) r.alt[HDRS[h].name].push_back(HDRS[h].alt); }
 		if (h == 5) r.headers["x-a"] = "v";
 		if (BODIES[b].hname) r.headers[BODIES[b].hname] = BODIES[b].hvalue;
 		s.expect.push_back(r);
@@ -236,6 +246,108 @@ static Stream product(int l, int h, int b) {
 	if (s.kind == K_EXACT && l == 2 && BODIES[b].hname && !strcmp(BODIES[b].hname, "transfer-encoding")) s.kind = K_OPTIONAL; // Transfer-Encoding is not defined for HTTP/1.0: refusing is legitimate
 	s.core = l == 0 && h == 0;
 	return s;
+}
+
+// ---- header-name spelling family: the statement says headers are looked up case-insensitively, so every header form is crossed
+// with every spelling of the name on the wire, and every delivered request is looked up under every spelling as well.
+// A spelling of a short name is a bit mask over its letters (bit k set: letter k in upper case): all 2^letters patterns, which
+// contain the canonical Capitalized-Dash form, all lower, all upper and every mixed form (Content-MD5 / ETag / x-Requested-with like).
+static const char* HN_NAMES[] = { "x-ab", "ab", "a-b-c" };
+enum { HN_NNAMES = 3 };
+static int nLetters(const std::string& n) { int k = 0; for (size_t i = 0; i < n.size(); i++) if (isalpha((unsigned char)n[i])) k++; return k; }
+static std::string spell(const std::string& name, unsigned mask) { std::string r; int k = 0; for (size_t i = 0; i < name.size(); i++) { unsigned char c = (unsigned char)name[i]; if (isalpha(c)) { r += (char)((mask >> k & 1) ? toupper(c) : tolower(c)); k++; } else r += (char)c; } return r; }
+static unsigned canonMask(const std::string& name) { unsigned m = 0; int k = 0; for (size_t i = 0; i < name.size(); i++) if (isalpha((unsigned char)name[i])) { if (i == 0 || name[i - 1] == '-') m |= 1u << k; k++; } return m; }
+// spelling classes of a long name: 0 canonical, 1 all lower, 2 all upper, 3 canonical inverted (cONTENT-lENGTH), 4 only the first letter upper (Content-length)
+enum { N_CLASSES = 5 };
+static std::string spellClass(const std::string& name, int cls) {
+	int n = nLetters(name); unsigned all = n >= 32 ? ~0u : (1u << n) - 1, c = canonMask(name);
+	return spell(name, cls == 0 ? c : cls == 1 ? 0 : cls == 2 ? all : cls == 3 ? (~c & all) : 1u);
+}
+// every spelling a name (given in lower case) is looked up under: all letter-case patterns up to 4 letters, the 5 classes beyond
+static void addProbes(std::vector<std::string>& v, const std::string& lname) {
+	int n = nLetters(lname);
+	if (n <= 4) for (unsigned m = 0; m < (1u << n); m++) v.push_back(spell(lname, m));
+	else for (int c = 0; c < N_CLASSES; c++) v.push_back(spellClass(lname, c));
+}
+// header forms of the family (N = first spelling, N2 = second spelling, used by the repeated forms only)
+enum { HF_PLAIN, HF_NOSPACE, HF_PADDED, HF_FOLD2, HF_TABFOLD, HF_FOLD3, HF_EMPTY, HF_FOLD_AFTER_EMPTY, HF_EMPTY_BLANKFOLD, HF_VALUE_BLANKFOLD, HF_FOLD_THEN_NEXT, HF_REPEATED, HF_REPEATED_FOLD, HN_NFORMS };
+static bool hfTwo(int f) { return f == HF_REPEATED || f == HF_REPEATED_FOLD; }
+static bool hfFold(int f) { return f == HF_FOLD2 || f == HF_TABFOLD || f == HF_FOLD3 || f == HF_FOLD_AFTER_EMPTY || f == HF_EMPTY_BLANKFOLD || f == HF_VALUE_BLANKFOLD || f == HF_FOLD_THEN_NEXT || f == HF_REPEATED_FOLD; }
+static bool bodyOk(int b) { return BODIES[b].ok; }
+static Stream hnStream(int ni, unsigned m1, unsigned m2, int f, int pos, int l, int b) {
+	Stream s; s.names = true; s.hnForm = f;
+	const std::string ln = HN_NAMES[ni], N = spell(ln, m1), N2 = spell(ln, m2);
+	s.name = fmt("hn.N%d.S%u.%u.F%d.P%d.L%d.B%d", ni, m1, m2, f, pos, l, b);
+	s.hnNoncanon = m1 != canonMask(ln) || (hfTwo(f) && m2 != canonMask(ln)); s.hnTwoSpellings = hfTwo(f) && m1 != m2; s.hnBeforeHost = pos == 1;
+	Rec r = mk(LINES[l].method, LINES[l].path, LINES[l].query, BODIES[b].body); r.headers["host"] = "h";
+	std::string t; std::vector<std::string>& alt = r.alt[ln];
+	switch (f) {
+	case HF_PLAIN: t = N + ": v\r\n"; r.headers[ln] = "v"; break;
+	case HF_NOSPACE: t = N + ":v\r\n"; r.headers[ln] = "v"; break;
+	case HF_PADDED: t = N + ":  v \r\n"; r.headers[ln] = "v"; break;
+	case HF_FOLD2: t = N + ": v\r\n  w\r\n"; r.headers[ln] = "vw"; alt.push_back("v w"); break;
+	case HF_TABFOLD: t = N + ": v\r\n\tw\r\n"; r.headers[ln] = "vw"; alt.push_back("v w"); break;
+	case HF_FOLD3: t = N + ": v\r\n w\r\n\tx\r\n"; r.headers[ln] = "vwx"; alt.push_back("v w x"); break;
+	case HF_EMPTY: t = N + ":\r\n"; r.headers[ln] = ""; break;
+	case HF_FOLD_AFTER_EMPTY: t = N + ":\r\n w\r\n"; r.headers[ln] = "w"; break;              // the whole value stands on the continuation line
+	case HF_EMPTY_BLANKFOLD: t = N + ":\r\n \r\n"; r.headers[ln] = ""; break;                  // an empty value followed by a fold of white space only: still a header with an empty value
+	case HF_VALUE_BLANKFOLD: t = N + ": v\r\n \t\r\n"; r.headers[ln] = "v"; break;             // a fold that adds nothing
+	case HF_FOLD_THEN_NEXT: t = N + ": v\r\n w\r\nX-B: z\r\n"; r.headers[ln] = "vw"; alt.push_back("v w"); r.headers["x-b"] = "z"; break; // the fold ends at the next header
+	// the same header twice (second time possibly spelled differently): one header, whose value is the last, the first or the comma-joined list
+	case HF_REPEATED: t = N + ": v\r\n" + N2 + ": w\r\n"; r.headers[ln] = "w"; alt.push_back("v"); alt.push_back("v, w"); alt.push_back("v,w"); break;
+	case HF_REPEATED_FOLD: t = N + ": v\r\n" + N2 + ": w\r\n x\r\n"; r.headers[ln] = "wx"; alt.push_back("w x"); alt.push_back("v"); alt.push_back("v, wx"); alt.push_back("v,wx"); alt.push_back("v, w x"); alt.push_back("v,w x"); break;
+	}
+	s.bytes = std::string(LINES[l].text) + "\r\n" + (pos == 1 ? t : "") + "Host: h\r\n" + (pos == 1 ? "" : t) + BODIES[b].hdr + "\r\n" + BODIES[b].bytes;
+	if (BODIES[b].hname) r.headers[BODIES[b].hname] = BODIES[b].hvalue;
+	s.kind = K_EXACT;
+	if (l == 2 && BODIES[b].hname && !strcmp(BODIES[b].hname, "transfer-encoding")) s.kind = K_OPTIONAL;
+	s.expect.push_back(r);
+	return s;
+}
+// the headers the server itself interprets to frame the body (Content-Length, Transfer-Encoding, and Expect in front of a body),
+// spelled in class cls, written "N: value" (vform 0) or with the value on a continuation line "N:" CRLF SP "value" (vform 1)
+static Stream frStream(int cls, int vform, bool expect, int l, int b) {
+	Stream s; s.names = true; s.hnFraming = vform; s.hnNoncanon = cls != 0;
+	s.name = fmt("fr.C%d.V%d.E%d.L%d.B%d", cls, vform, (int)expect, l, b);
+	std::string line = BODIES[b].hdr; size_t c = line.find(':');
+	std::string hn = line.substr(0, c), hv = line.substr(c + 2, line.size() - c - 4);
+	auto wr = [&](const std::string& n, const std::string& v) { return spellClass(lower(n), cls) + (vform == 0 ? ": " + v : ":\r\n " + v) + "\r\n"; };
+	Rec r = mk(LINES[l].method, LINES[l].path, LINES[l].query, BODIES[b].body); r.headers["host"] = "h"; r.headers[lower(hn)] = hv;
+	s.bytes = std::string(LINES[l].text) + "\r\nHost: h\r\n" + (expect ? wr("Expect", "100-continue") : "") + wr(hn, hv) + "\r\n" + BODIES[b].bytes;
+	if (expect) r.headers["expect"] = "100-continue";
+	s.kind = K_EXACT;
+	if (l == 2 && lower(hn) == "transfer-encoding") s.kind = K_OPTIONAL;
+	s.expect.push_back(r);
+	return s;
+}
+static void nameStreams(std::vector<Stream>& v) {
+	// quick tier: name "x-ab" in all 8 spellings x the 11 single-name forms x header after / before Host, no body; the 2 repeated
+	// forms x all 64 spelling pairs; the folds again in front of a Content-Length and a chunked body; names "ab" and "a-b-c" in all
+	// spellings x (plain, fold, three-line fold, empty, fold after empty). Thorough tier: everything x all three names x both
+	// positions x every well-formed body, and the other two request lines without a body.
+	static const int okBodies[] = { 0, 1, 2, 3, 8, 9, 14, 15, 16, 17 };
+	for (int ni = 0; ni < HN_NNAMES; ni++) {
+		unsigned nm = 1u << nLetters(HN_NAMES[ni]);
+		for (int f = 0; f < HN_NFORMS; f++) for (unsigned m1 = 0; m1 < nm; m1++) for (unsigned m2 = 0; m2 < nm; m2++) {
+			if (!hfTwo(f) && m2 != m1) continue;
+			for (int pos = 0; pos < 2; pos++) for (int l = 0; l < NL; l++) for (size_t bi = 0; bi < sizeof okBodies / sizeof *okBodies; bi++) {
+				int b = okBodies[bi];
+				if (l > 0 && b != 0) continue;
+				bool quick;
+				if (ni == 0) quick = l == 0 && ((b == 0 && (pos == 0 || !hfTwo(f))) || ((b == 2 || b == 8) && pos == 0 && (f == HF_FOLD2 || f == HF_FOLD3 || f == HF_FOLD_AFTER_EMPTY)));
+				else quick = l == 0 && b == 0 && pos == 0 && (f == HF_PLAIN || f == HF_FOLD2 || f == HF_FOLD3 || f == HF_EMPTY || f == HF_FOLD_AFTER_EMPTY);
+				Stream s = hnStream(ni, m1, m2, f, pos, l, b); s.thoroughOnly = !quick; v.push_back(s);
+			}
+		}
+	}
+	// framing headers: every class x both value forms (class 0 with "N: value" is the original grammar) x every well-formed body with a framing header
+	for (int cls = 0; cls < N_CLASSES; cls++) for (int vform = 0; vform < 2; vform++) for (int e = 0; e < 2; e++) for (int l = 0; l < NL; l++) for (size_t bi = 1; bi < sizeof okBodies / sizeof *okBodies; bi++) {
+		int b = okBodies[bi];
+		if (cls == 0 && vform == 0) continue;
+		if (e == 1 && b != 2 && b != 8) continue; // Expect in front of one body of each framing
+		bool quick = l == 0 && (e == 1 || b == 1 || b == 2 || b == 8 || b == 14 || b == 17);
+		Stream s = frStream(cls, vform, e == 1, l, b); s.thoroughOnly = !quick; v.push_back(s);
+	}
 }
 static Stream optional1(const std::string& name, const std::string& bytes) { Stream s; s.name = name; s.bytes = bytes; s.kind = K_OPTIONAL; return s; }
 static std::vector<Stream> streams() {
@@ -302,9 +414,18 @@ static std::vector<Stream> streams() {
 		static const char* out[] = { "/../secret.txt", "/%2e%2e/secret.txt", "/sub/..%2f..%2fsecret.txt", "/sub/%2e%2e/%2e%2e/secret.txt", "/.%2e/.%2e/secret.txt", "/..../secret.txt", "/sub/.../.../secret.txt" };
 		for (size_t i = 0; i < sizeof out / sizeof *out; i++) { Stream s; s.fileRoot = true; s.kind = K_SAFETY; s.outside = true; s.name = fmt("outside%d", (int)i); s.bytes = std::string("GET ") + out[i] + " HTTP/1.1\r\nHost: h\r\n\r\n"; v.push_back(s); }
 	}
+	// header-name spellings x header forms (appended last: stream numbers of earlier case strings stay valid)
+	nameStreams(v);
 	return v;
 }
 // bodyPrefix: a stalling peer was given up on: the body may stop early (what a server does with a slow peer is not part of the property)
+static bool accepted(const Rec& e, const std::string& lname, const std::string& value) {
+	std::map<std::string, std::string>::const_iterator x = e.headers.find(lname); if (x == e.headers.end()) return false;
+	if (value == x->second) return true;
+	std::map<std::string, std::vector<std::string> >::const_iterator a = e.alt.find(lname);
+	if (a != e.alt.end()) for (size_t i = 0; i < a->second.size(); i++) if (a->second[i] == value) return true;
+	return false;
+}
 static bool sameRec(const Rec& g, const Rec& e, std::string& why, bool bodyPrefix = false) {
 	if (g.method != e.method) { why = "method '" + g.method + "' instead of '" + e.method + "'"; return false; }
 	if (g.path != e.path) { why = "path " + brief(g.path) + " instead of " + brief(e.path); return false; }
@@ -312,11 +433,18 @@ static bool sameRec(const Rec& g, const Rec& e, std::string& why, bool bodyPrefi
 	if (bodyPrefix ? e.body.compare(0, g.body.size(), g.body) != 0 : g.body != e.body) { why = "body " + brief(g.body) + " instead of " + brief(e.body); return false; }
 	// the header dictionary is exactly the one sent: nothing missing, nothing added
 	for (std::map<std::string, std::string>::const_iterator it = e.headers.begin(); it != e.headers.end(); ++it) {
-		std::map<std::string, std::string>::const_iterator f = g.headers.find(it->first), a = e.alt.find(it->first);
-		if (f == g.headers.end() || (f->second != it->second && (a == e.alt.end() || f->second != a->second))) { why = "header " + it->first + " = " + (f == g.headers.end() ? std::string("<missing>") : "'" + text(f->second) + "'") + " instead of '" + text(it->second) + "'"; return false; }
+		std::map<std::string, std::string>::const_iterator f = g.headers.find(it->first);
+		if (f == g.headers.end() || !accepted(e, it->first, f->second)) { why = "header " + it->first + " = " + (f == g.headers.end() ? std::string("<missing>") : "'" + text(f->second) + "'") + " instead of '" + text(it->second) + "'"; return false; }
 	}
 	for (std::map<std::string, std::string>::const_iterator it = g.headers.begin(); it != g.headers.end(); ++it) if (!e.headers.count(it->first)) { why = "header " + it->first + " = '" + text(it->second) + "' delivered but never sent"; return false; }
 	if (!g.lookupFail.empty()) { why = "case-insensitive header lookup failed for " + g.lookupFail; return false; }
+	// looked up under every probe spelling: a header that was sent is found, with the delivered value; a name never sent is not found
+	for (std::map<std::string, std::pair<bool, std::string> >::const_iterator it = g.look.begin(); it != g.look.end(); ++it) {
+		std::string ln = lower(it->first); std::map<std::string, std::string>::const_iterator x = e.headers.find(ln), d = g.headers.find(ln);
+		if (x == e.headers.end()) { if (it->second.first || !it->second.second.empty()) { why = "lookup of '" + it->first + "', a header never sent, finds '" + text(it->second.second) + "'"; return false; } }
+		else if (!it->second.first) { why = "hasHeader('" + it->first + "') is false for the header " + ln + " that was sent"; return false; }
+		else if (!accepted(e, ln, it->second.second) || (d != g.headers.end() && d->second != it->second.second)) { why = "header('" + it->first + "') = '" + text(it->second.second) + "' instead of '" + text(d != g.headers.end() && accepted(e, ln, d->second) ? d->second : x->second) + "'"; return false; }
+	}
 	if (e.query == "x=1&y=a%20b" && !(g.params.size() == 2 && g.params.count("x") && g.params.find("x")->second == "1" && g.params.count("y") && g.params.find("y")->second == "a b")) { why = "query parameters"; return false; }
 	return true;
 }
@@ -334,6 +462,9 @@ static void streamCase(const Stream& s, int mode, int pos, const std::string& ka
 	g_case = kase; vf::cur(kase); vf::add(C_EVAL); vf::add(C_DIST);
 	std::vector<std::string> ch; int readMax = 0; bool full = true;
 	if (pos < 0 || pos > (int)s.bytes.size()) return;
+	g_probes.clear();
+	{ std::map<std::string, int> seen; for (size_t i = 0; i < s.expect.size(); i++) for (std::map<std::string, std::string>::const_iterator it = s.expect[i].headers.begin(); it != s.expect[i].headers.end(); ++it) if (!seen[it->first]++) addProbes(g_probes, it->first);
+	  if (!s.expect.empty()) { if (!seen.count("x-zz")) addProbes(g_probes, "x-zz"); if (!seen.count("x-ab")) addProbes(g_probes, "x-ab"); if (!seen.count("content-length")) addProbes(g_probes, "content-length"); } }
 	Outcome o;
 	bool stalled = mode == 5 || mode == 6; int stall = mode == 5 ? 7 : 12;
 	if (stalled) { o = runStalled(s.bytes.substr(0, pos), s.bytes.substr(pos), stall, s.fileRoot); vf::add(W_STALL); if (o.vtime >= 5) vf::add(W_STALL_TIMEOUT); }
@@ -391,13 +522,25 @@ static void streamCase(const Stream& s, int mode, int pos, const std::string& ka
 	if (e0.headers.count("transfer-encoding") && e0.body.size() >= 10) vf::add(W_HEXCHUNK);
 	if (s.bytes.find("3;x=1") != std::string::npos) vf::add(W_HEXCHUNK);
 	if (smallBlock() && e0.body.size() > 5) vf::add(W_BLOCKX);
+	for (size_t i = 0; i < o.got.size(); i++) for (std::map<std::string, std::pair<bool, std::string> >::const_iterator it = o.got[i].look.begin(); it != o.got[i].look.end(); ++it) vf::add(it->second.first ? W_LOOKUPS : W_LOOKUPS_ABSENT);
+	if (s.names) {
+		vf::add(W_HN_STREAMS);
+		int f = s.hnForm;
+		if (f >= 0 && s.hnNoncanon) vf::add(hfFold(f) ? W_HN_NONCANON_FOLD : f == HF_EMPTY ? W_HN_NONCANON_EMPTY : W_HN_NONCANON_PLAIN);
+		if (f == HF_FOLD_AFTER_EMPTY) vf::add(W_HN_FOLD_AFTER_EMPTY);
+		if (f == HF_EMPTY_BLANKFOLD || f == HF_VALUE_BLANKFOLD) vf::add(W_HN_BLANK_FOLD);
+		if (f >= 0 && hfTwo(f)) vf::add(s.hnTwoSpellings ? W_HN_REPEATED_2SPELL : W_HN_REPEATED);
+		if (s.hnBeforeHost) vf::add(W_HN_BEFORE_HOST);
+		if (s.hnFraming >= 0 && s.hnNoncanon) vf::add(W_HN_FRAMING);
+		if (s.hnFraming == 1) vf::add(W_HN_FRAMING_FOLD);
+	}
 }
 
 // ---- part D: query parameters: "k=v(&k=v)" built from tokens; the handler must see the decoded pairs (form decoding: '+' is a space, %XX a byte)
 static const char* QT[] = { "a", "b", "+", "%2B", "%20", "%26", "%3D", "%25", "%C3%A9" };
 static const char* QD[] = { "a", "b", " ", "+", " ", "&", "=", "%", "\xc3\xa9" };
 static void queryCase(int k1, int v1, int k2, int v2, const std::string& kase) {
-	g_case = kase; vf::cur(kase); vf::add(C_EVAL); vf::add(C_DIST);
+	g_case = kase; vf::cur(kase); vf::add(C_EVAL); vf::add(C_DIST); g_probes.clear();
 	// k: 1-2 tokens (index = t0 + 9*t1, t1 = 9 means none), v: 0-2 tokens (index 0 = empty)
 	auto mk = [](int idx, bool key, std::string& raw, std::string& dec) { raw.clear(); dec.clear(); if (!key) { if (idx == 0) return; idx--; } int t0 = idx % 9, t1 = idx / 9; raw += QT[t0]; dec += QD[t0]; if (t1 > 0) { raw += QT[t1 - 1]; dec += QD[t1 - 1]; } };
 	std::string rk1, dk1, rv1, dv1, rk2, dk2, rv2, dv2;
@@ -453,7 +596,13 @@ static void streamJobs(std::vector<J>& jobs, bool T, bool small) {
 			bool chunkedBody = s.bytes.find("chunked") != std::string::npos;
 			if (!((s.core || T) && (hasBody || chunkedBody || s.fileRoot)) || s.longline || s.badline) continue;
 		}
+		if (small && s.names) continue;
 		J j = { (int)si, 0, 0 }; jobs.push_back(j); j.mode = 3; jobs.push_back(j); j.mode = 4; jobs.push_back(j);
+		if (s.names) {
+			for (int p = 1; p < n; p++) { J t = { (int)si, 2, p }; jobs.push_back(t); }
+			if (T) for (int p = 0; p < n; p++) { J t = { (int)si, 1, p }; jobs.push_back(t); }
+			continue;
+		}
 		if (s.longline) {
 			for (size_t p = 0; p < s.positions.size(); p++) { J t = { (int)si, 1, s.positions[p] }; jobs.push_back(t); t.mode = 2; jobs.push_back(t); }
 			continue;
@@ -485,6 +634,10 @@ int main(int argc, char** argv) {
 	W_BLOCKX = vf::counter("w.bodies_longer_than_receive_block_compared");
 	W_STALL = vf::counter("w.stalled_peer_executions"); W_STALL_TIMEOUT = vf::counter("w.stalled_with_select_timeout"); W_STALL_DELIVERED = vf::counter("w.stalled_all_delivered"); W_STALL_PARTIAL = vf::counter("w.stalled_body_cut_by_timeout"); W_STALL_GAVEUP = vf::counter("w.stalled_connection_given_up");
 	W_OUTSIDE_TRIED = vf::counter("w.outside_root_requests_handled");
+	W_HN_STREAMS = vf::counter("w.name_spelling_streams_compared"); W_HN_NONCANON_PLAIN = vf::counter("w.noncanonical_name_unfolded_compared"); W_HN_NONCANON_FOLD = vf::counter("w.noncanonical_name_folded_compared"); W_HN_NONCANON_EMPTY = vf::counter("w.noncanonical_name_empty_value_compared");
+	W_HN_FOLD_AFTER_EMPTY = vf::counter("w.value_on_continuation_line_compared"); W_HN_BLANK_FOLD = vf::counter("w.blank_continuation_lines_compared"); W_HN_REPEATED = vf::counter("w.repeated_header_same_spelling_compared"); W_HN_REPEATED_2SPELL = vf::counter("w.repeated_header_two_spellings_compared");
+	W_HN_BEFORE_HOST = vf::counter("w.name_spelling_header_first_in_block_compared"); W_HN_FRAMING = vf::counter("w.respelled_framing_header_bodies_compared"); W_HN_FRAMING_FOLD = vf::counter("w.framing_value_on_continuation_line_compared");
+	W_LOOKUPS = vf::counter("w.header_lookups_by_spelling_compared"); W_LOOKUPS_ABSENT = vf::counter("w.lookups_of_names_never_sent_compared");
 	vsched::set_fatal_handler(onFatal);
 	vsched::set_state_probe(vnet::state_hash);
 	// web root with one file and one directory; a file next to the root that must never be served
@@ -522,11 +675,13 @@ int main(int argc, char** argv) {
 	for (int len = 0; len <= (T ? 7 : 6); len++) { uint64_t n = 1; for (int i = 0; i < len; i++) n *= NU; vf::parallel((n + 255) / 256, [&](uint64_t blk) { for (uint64_t i = blk * 256; i < (blk + 1) * 256 && i < n; i++) { std::string s; uint64_t x = i; for (int k = 0; k < len; k++) { s += UA[x % NU]; x /= NU; } urlCase(s, "url:" + vf::hex(s)); } }); }
 	// A0 (last: on a tree where '..' survives behind a NUL this family floods): every target over TA + "%00" with at least one "%00"
 	for (int len = 1; len <= (T ? 7 : 5); len++) { uint64_t n = 1; for (int i = 0; i < len; i++) n *= 7; vf::parallel(n, [&](uint64_t i) { if (hasDigit(7, len, i, 6)) run_case(fmt("t0:%d:%llu", len, (unsigned long long)i)); }, 64); if (vf::deadline_passed()) { vf::cap_hit("deadline in targets A0"); break; } }
-	{ const Need need[] = { NEED(W_NUL_DOTDOT), NEED(W_NUL_PATH), NEED(W_BADLINE_DROPPED), NEED(W_BADLINE_LENIENT), NEED(W_HEXCHUNK), NEED(W_LONG_DELIVERED), NEED(W_LONG_DROPPED), NEED(W_EXACTHDR), NEED(W_TABFOLD), NEED(W_STALL_TIMEOUT), NEED(W_STALL_DELIVERED), NEED(W_STALL_PARTIAL), NEED(W_STALL_GAVEUP), NEED(W_F200), NEED(W_F206), NEED(W_F416), NEED(W_F404), NEED(W_R100), NEED(W_R417), NEED(W_OUTSIDE_TRIED), NEED(W_DELIVERED), NEED(W_QUERY), NEED(W_DOTDOT) };
+	{ const Need need[] = { NEED(W_NUL_DOTDOT), NEED(W_NUL_PATH), NEED(W_BADLINE_DROPPED), NEED(W_BADLINE_LENIENT), NEED(W_HEXCHUNK), NEED(W_LONG_DELIVERED), NEED(W_LONG_DROPPED), NEED(W_EXACTHDR), NEED(W_TABFOLD), NEED(W_STALL_TIMEOUT), NEED(W_STALL_DELIVERED), NEED(W_STALL_PARTIAL), NEED(W_STALL_GAVEUP), NEED(W_F200), NEED(W_F206), NEED(W_F416), NEED(W_F404), NEED(W_R100), NEED(W_R417), NEED(W_OUTSIDE_TRIED), NEED(W_DELIVERED), NEED(W_QUERY), NEED(W_DOTDOT),
+						NEED(W_HN_STREAMS), NEED(W_HN_NONCANON_PLAIN), NEED(W_HN_NONCANON_FOLD), NEED(W_HN_NONCANON_EMPTY), NEED(W_HN_FOLD_AFTER_EMPTY), NEED(W_HN_BLANK_FOLD), NEED(W_HN_REPEATED), NEED(W_HN_REPEATED_2SPELL), NEED(W_HN_BEFORE_HOST), NEED(W_HN_FRAMING), NEED(W_HN_FRAMING_FOLD), NEED(W_LOOKUPS), NEED(W_LOOKUPS_ABSENT) };
 	  needWitness(need, sizeof need / sizeof *need); }
 	vf::sample("GET /%2e%2e/%2e./a HTTP/1.1 ; GET /a#b?c HTTP/1.1 ; GET /a%00/../x HTTP/1.1 (every target over {. / %2e %2f %25 a}, {/ a ? # = & % +}, {. / %2e %2f %25 a %00})");
 	vf::sample("POST /u HTTP/1.1 | Host: h | X-A:v | Content-Length: 10 | abc<EOF>  cut at every byte, split in two at every byte, byte-wise, read(1), peer stalling 7 s / 12 s at every byte");
 	vf::sample("Url(\"[a/]:9\"), Url::decode(\"%\"), Url::parseQuery(\"a=%2\")");
+	vf::sample("x-AB: v CRLF SP w CRLF HT x (name in all 8 letter-case patterns x 13 header forms), looked up as x-ab, X-Ab, X-AB, x-aB ...; cONTENT-lENGTH: CRLF SP 3 in front of a body");
 	vf::sample("GET /aaa...(15986 a) HTTP/1.1: request line of 16001 bytes (delivered) / 16002 bytes (refused); 'GET' / 'GET /a' / 'GET  HTTP/1.1' as request lines");
 	return vf::finish();
 }
